@@ -1,5 +1,5 @@
 """what MANIFEST.json claims, per property (kept next to the code that implements it)"""
-NOTES = ('Technique family: static analysis only. Every check recompiles /repo\'s working tree to LLVM IR (clang-14 -O0, then opt-14 sroa/mem2reg/instsimplify/early-cse/jump-threading/simplifycfg, member-wise splitting of local structs; functions the rules do not know by name are inlined first, '
+NOTES = ('Technique family: static analysis only. Every check recompiles /repo\'s working tree to LLVM IR (clang-14 -O0, then opt-14 sroa/mem2reg/instsimplify/early-cse/full unrolling of constant loops up to 6 iterations/jump-threading/simplifycfg, member-wise splitting of local structs, folding of constant-table loads; functions the rules do not know by name are inlined first, '
          'the repo\'s own flags, all 22 compile commands of the four libraries) in a scratch directory and decides structural clauses '
          'of the property with repository-specific rules; exit 0 pass, 1 violation (VIOLATION line + report file), 2 analysis broken '
          '(anchor vanished / undecidable form / instance count below the confirmed minimum). Clauses that quantify over runtime values '
@@ -231,7 +231,20 @@ ADDED5 = {
  'C18': 'Fifth wave: nothing is written through xor_code_t.parity_bms / data_bms: the equation tables are shared by all instances of a shape (R18h).',
  'C19': 'Fifth wave: isa_l_min_fragments decided as a value function (R06m).',
 }
-for _d in (ADDED, ADDED3, ADDED4, ADDED5):
+ADDED6 = {
+ 'C02': 'Sixth wave: lists of missing elements / indexes have room for every entry plus the terminator (R02g); the adapters of the built-in codes forward every request to the coder and leave the buffers alone (R02h).',
+ 'C04': 'Sixth wave: coefficient rows of reconstruct are inverse rows or freshly zeroed local rows (R04i); R02h shared.',
+ 'C05': 'Sixth wave: fast_memcpy copies exactly size bytes (R05g); with parities erased the data decoders never get a NULL missing-parity list (R05f); R02h, R01b shared.',
+ 'C08': 'Sixth wave: get_fragment_size is header + stored sizes for every size incl. 0 (R08e, value function); R14a shared.',
+ 'C09': 'Sixth wave: every call that receives one of the caller\'s fragments counts as a consumer that header validation must dominate (R09a).',
+ 'C11': 'Sixth wave: the raw libec_version is compared with anything but 0 only where the header is known to be in host order (R11f).',
+ 'C13': 'Sixth wave: ec_backends_supported[] is used only below EC_BACKENDS_MAX or after a NULL test of the entry (R13i).',
+ 'C14': 'Sixth wave: the allocator has no non-positive return value (R14a); outside init / exit nothing is written through pointers loaded from descriptor members (R14e).',
+ 'C16': 'Sixth wave: in backend inits a member of the malloc\'ed descriptor is read only after it was stored on that path (R16h).',
+ 'C18': 'Sixth wave: the library\'s locks are acquired with blocking calls only (R18i).',
+ 'C19': 'Sixth wave: inside the column loop of get_inverse_rows the rows are only XOR-accumulated (R19h).',
+}
+for _d in (ADDED, ADDED3, ADDED4, ADDED5, ADDED6):
     for _k, _v in _d.items():
         CHECKS[_k]['text'] += ' ' + _v
 
